@@ -11,5 +11,5 @@ MCScript == IF MCLong THEN <<"LoadPlan", "FreshObj", "CopyFrom", "CopyTo", "SetO
                       ELSE <<"LoadPlan", "FreshObj", "CopyFrom", "CopyTo", "SetPrior", "CopyTo", "CopyTo">>
 MCProps == {"C08", "C09"}
 ASSUME PrintT("SHAPES " \o ToJson(MCShapes))
-INSTANCE Session WITH Shapes <- MCShapes, Script <- MCScript, Deep <- MCDeep, Props <- MCProps, ObjMode <- "all", RawMode <- "plans"
+INSTANCE Session WITH Shapes <- MCShapes, Script <- MCScript, Deep <- MCDeep, Props <- MCProps, ObjMode <- "all", RawMode <- "plans", EmptyMode <- "plain"
 ====
